@@ -1,16 +1,144 @@
-// C13 wrapper: entry points written against the public SimpleString API
+// C13 wrapper: entry points written against the public SimpleString API.
+// Results are copied out with a plain loop (not with the code under test).
 #include "CppUTest/TestHarness.h"
 #include "CppUTest/SimpleString.h"
+#include "CppUTest/TestMemoryAllocator.h"
+#include "CppUTest/PlatformSpecificFunctions.h"
+
 extern "C" {
 void h_env_install(void);
-void h_init(void) { h_env_install(); }
+char* h_rec_alloc(unsigned long size);
+void h_rec_free(char* p, unsigned long size);
+}
+
+// recording string allocator: every buffer request/release goes through the harness' ledger
+class RecAllocator : public TestMemoryAllocator
+{
+public:
+    RecAllocator() : TestMemoryAllocator("rec", "rec", "rec") {}
+    virtual char* alloc_memory(size_t size, const char*, size_t) CPPUTEST_OVERRIDE { return h_rec_alloc(size); }
+    virtual void free_memory(char* memory, size_t size, const char*, size_t) CPPUTEST_OVERRIDE { h_rec_free(memory, size); }
+};
+
+static unsigned long copyOut(const SimpleString& s, char* out, unsigned long cap)
+{
+    const char* p = s.asCharString();
+    unsigned long n = 0;
+    while (p[n]) { if (n + 1 < cap) out[n] = p[n]; n++; }
+    if (cap) out[n < cap ? n : cap - 1] = 0;
+    return n;
+}
+
+extern "C" {
+void h_init(void)
+{
+    static RecAllocator rec;
+    h_env_install();
+    SimpleString::setStringAllocator(&rec);
+}
+// ---- primitives
 long h_StrStr(const char* s1, const char* s2) { const char* r = SimpleString::StrStr(s1, s2); return r ? (long)(r - s1) : -1; }
 int h_StrCmp(const char* a, const char* b) { return SimpleString::StrCmp(a, b); }
 unsigned long h_StrLen(const char* a) { return SimpleString::StrLen(a); }
-unsigned long h_replace(const char* s, const char* from, const char* to, char* out, unsigned long cap)
+int h_StrNCmp(const char* a, const char* b, unsigned long n) { return SimpleString::StrNCmp(a, b, n); }
+long h_StrNCpy(char* d, const char* s, unsigned long n) { char* r = SimpleString::StrNCpy(d, s, n); return r ? (long)(r - d) : -1; }
+int h_MemCmp(const void* a, const void* b, unsigned long n) { return SimpleString::MemCmp(a, b, n); }
+int h_AtoI(const char* s) { return SimpleString::AtoI(s); }
+unsigned h_AtoU(const char* s) { return SimpleString::AtoU(s); }
+int h_ToLower(int c) { return (int)(unsigned char)SimpleString::ToLower((char)c); }
+// ---- class operations
+unsigned long h_ctor(const char* a, char* out, unsigned long cap) { SimpleString s(a); return copyOut(s, out, cap); }
+unsigned long h_copy_assign(const char* a, const char* b, char* out, unsigned long cap)
 {
-    SimpleString str(s);
-    str.replace(from, to);
-    return str.copyToBuffer(out, cap), str.size();
+    SimpleString s(a); SimpleString t(b); SimpleString u(s);
+    t = u; t = t; u = SimpleString(b);
+    return copyOut(t, out, cap);
 }
+unsigned long h_repeat(const char* a, unsigned long n, char* out, unsigned long cap) { SimpleString s(a, n); return copyOut(s, out, cap); }
+unsigned long h_concat(const char* a, const char* b, char* out, unsigned long cap) { SimpleString s(a); SimpleString t(b); SimpleString u = s + t; return copyOut(u, out, cap); }
+unsigned long h_append(const char* a, const char* b, int viaCstr, char* out, unsigned long cap)
+{
+    SimpleString s(a);
+    if (viaCstr) s += b; else s += SimpleString(b);
+    return copyOut(s, out, cap);
+}
+int h_equal(const char* a, const char* b) { SimpleString s(a), t(b); return ((s == t) ? 1 : 0) | ((s != t) ? 2 : 0); }
+int h_equalsNoCase(const char* a, const char* b) { SimpleString s(a), t(b); return s.equalsNoCase(t); }
+int h_contains(const char* a, const char* b) { SimpleString s(a), t(b); return s.contains(t); }
+int h_containsNoCase(const char* a, const char* b) { SimpleString s(a), t(b); return s.containsNoCase(t); }
+int h_startsWith(const char* a, const char* b) { SimpleString s(a), t(b); return s.startsWith(t); }
+int h_endsWith(const char* a, const char* b) { SimpleString s(a), t(b); return s.endsWith(t); }
+unsigned long h_count(const char* a, const char* b) { SimpleString s(a), t(b); return s.count(t); }
+unsigned long h_size_empty(const char* a) { SimpleString s(a); return s.size() * 2 + (s.isEmpty() ? 1 : 0); }
+unsigned long h_split(const char* a, const char* d, unsigned long which, char* out, unsigned long cap, unsigned long* n)
+{
+    SimpleString s(a), t(d);
+    SimpleStringCollection col;
+    s.split(t, col);
+    *n = col.size();
+    return copyOut(col[which], out, cap);
+}
+unsigned long h_replace_char(const char* a, int from, int to, char* out, unsigned long cap) { SimpleString s(a); s.replace((char)from, (char)to); return copyOut(s, out, cap); }
+unsigned long h_replace(const char* a, const char* from, const char* to, char* out, unsigned long cap) { SimpleString s(a); s.replace(from, to); return copyOut(s, out, cap); }
+unsigned long h_replace_twice(const char* a, const char* f1, const char* t1, const char* f2, const char* t2, char* out, unsigned long cap)
+{
+    SimpleString s(a); s.replace(f1, t1); s.replace(f2, t2); return copyOut(s, out, cap);
+}
+unsigned long h_lowerCase(const char* a, char* out, unsigned long cap) { SimpleString s(a); return copyOut(s.lowerCase(), out, cap); }
+unsigned long h_printable(const char* a, char* out, unsigned long cap) { SimpleString s(a); return copyOut(s.printable(), out, cap); }
+unsigned long h_subString2(const char* a, unsigned long b, unsigned long n, char* out, unsigned long cap) { SimpleString s(a); return copyOut(s.subString(b, n), out, cap); }
+unsigned long h_subString1(const char* a, unsigned long b, char* out, unsigned long cap) { SimpleString s(a); return copyOut(s.subString(b), out, cap); }
+int h_at(const char* a, unsigned long pos) { SimpleString s(a); return (int)(unsigned char)s.at(pos); }
+unsigned long h_find(const char* a, int ch) { SimpleString s(a); return s.find((char)ch); }
+unsigned long h_findFrom(const char* a, unsigned long from, int ch) { SimpleString s(a); return s.findFrom(from, (char)ch); }
+unsigned long h_subStringFromTill(const char* a, int c1, int c2, char* out, unsigned long cap) { SimpleString s(a); return copyOut(s.subStringFromTill((char)c1, (char)c2), out, cap); }
+void h_copyToBuffer(const char* a, char* buf, unsigned long size) { SimpleString s(a); s.copyToBuffer(buf, size); }
+unsigned long h_pad(const char* a, const char* b, int ch, char* out1, char* out2, unsigned long cap)
+{
+    SimpleString s(a), t(b);
+    SimpleString::padStringsToSameLength(s, t, (char)ch);
+    copyOut(t, out2, cap);
+    return copyOut(s, out1, cap);
+}
+// ---- formatters
+unsigned long h_from_int(int v, char* out, unsigned long cap) { return copyOut(StringFrom(v), out, cap); }
+unsigned long h_from_uint(unsigned v, char* out, unsigned long cap) { return copyOut(StringFrom(v), out, cap); }
+unsigned long h_from_long(long v, char* out, unsigned long cap) { return copyOut(StringFrom(v), out, cap); }
+unsigned long h_from_ulong(unsigned long v, char* out, unsigned long cap) { return copyOut(StringFrom(v), out, cap); }
+unsigned long h_from_ll(long long v, char* out, unsigned long cap) { return copyOut(StringFrom(v), out, cap); }
+unsigned long h_from_ull(unsigned long long v, char* out, unsigned long cap) { return copyOut(StringFrom(v), out, cap); }
+unsigned long h_from_bool(int v, char* out, unsigned long cap) { return copyOut(StringFrom(v != 0), out, cap); }
+unsigned long h_from_char(int v, char* out, unsigned long cap) { return copyOut(StringFrom((char)v), out, cap); }
+unsigned long h_from_cstr(const char* v, int orNull, char* out, unsigned long cap) { return copyOut(orNull == 0 ? StringFrom(v) : orNull == 1 ? StringFromOrNull(v) : PrintableStringFromOrNull(v), out, cap); }
+unsigned long h_from_ptr(unsigned long v, char* out, unsigned long cap) { return copyOut(StringFrom((const void*)v), out, cap); }
+unsigned long h_hex(int kind, unsigned long long v, char* out, unsigned long cap)
+{
+    switch (kind) {
+    case 0: return copyOut(HexStringFrom((int)v), out, cap);
+    case 1: return copyOut(HexStringFrom((unsigned int)v), out, cap);
+    case 2: return copyOut(HexStringFrom((long)v), out, cap);
+    case 3: return copyOut(HexStringFrom((unsigned long)v), out, cap);
+    case 4: return copyOut(HexStringFrom((long long)v), out, cap);
+    case 5: return copyOut(HexStringFrom((unsigned long long)v), out, cap);
+    case 6: return copyOut(HexStringFrom((signed char)v), out, cap);
+    case 7: return copyOut(HexStringFrom((const void*)v), out, cap);
+    case 8: return copyOut(BracketsFormattedHexStringFrom((int)v), out, cap);
+    case 9: return copyOut(BracketsFormattedHexStringFrom((unsigned long)v), out, cap);
+    case 10: return copyOut(BracketsFormattedHexStringFrom((signed char)v), out, cap);
+    default: return copyOut(BracketsFormattedHexStringFrom((long long)v), out, cap);
+    }
+}
+unsigned long h_binary(const unsigned char* v, unsigned long n, int kind, char* out, unsigned long cap)
+{
+    switch (kind) {
+    case 0: return copyOut(StringFromBinary(v, n), out, cap);
+    case 1: return copyOut(StringFromBinaryOrNull(v, n), out, cap);
+    case 2: return copyOut(StringFromBinaryWithSize(v, n), out, cap);
+    default: return copyOut(StringFromBinaryWithSizeOrNull(v, n), out, cap);
+    }
+}
+unsigned long h_masked(unsigned long v, unsigned long mask, unsigned long bytes, char* out, unsigned long cap) { return copyOut(StringFromMaskedBits(v, mask, bytes), out, cap); }
+unsigned long h_ordinal(unsigned v, char* out, unsigned long cap) { return copyOut(StringFromOrdinalNumber(v), out, cap); }
+unsigned long h_format_sd(const char* s, int d, char* out, unsigned long cap) { return copyOut(StringFromFormat("<%s>:%d", s, d), out, cap); }
+unsigned long h_format_s(const char* s, char* out, unsigned long cap) { return copyOut(StringFromFormat("%s", s), out, cap); }
 }
